@@ -475,12 +475,55 @@ func (p *prover) liaSystem(facts []Fact, mention ...ast.Expr) *liaSys {
 			return true
 		})
 	}
+	// integer division of a non-negative quantity by a positive constant: for D = e / k,
+	// k*D <= e <= k*D + (k-1). (D itself is an opaque atom of the linearisation.)
+	seenDiv := map[string]bool{}
+	noteDivs := func(e ast.Expr) {
+		if e == nil {
+			return
+		}
+		ast.Inspect(e, func(n ast.Node) bool {
+			be, ok := n.(*ast.BinaryExpr)
+			if !ok || be.Op != token.QUO {
+				return true
+			}
+			k, isK := constInt(p.info, be.Y)
+			if !isK || k < 2 || k > 1024 {
+				return true
+			}
+			if t := p.info.TypeOf(be); t == nil || !isIntegerType(t) {
+				return true
+			}
+			if !p.nonNegTerm(be.X) && !p.sizeBounded(be.X, 0) {
+				return true
+			}
+			E, okE := p.linN(be.X, 0)
+			if !okE {
+				return true
+			}
+			d := p.canon(be)
+			if seenDiv[d] {
+				return true
+			}
+			seenDiv[d] = true
+			D := linAtom(d)
+			s.addLE0(D.scale(k).add(E, -1)) // k*D - e <= 0
+			up := E.add(D.scale(k), -1)     // e - k*D - (k-1) <= 0
+			up.c -= k - 1
+			s.addLE0(up)
+			s.addLE0(D.scale(-1))
+			return true
+		})
+	}
 	for _, m := range mention {
 		noteAtoms(m)
+		noteDivs(m)
 	}
 	walkRelFacts(facts, func(x, y ast.Expr, op token.Token) {
 		noteAtoms(x)
 		noteAtoms(y)
+		noteDivs(x)
+		noteDivs(y)
 	})
 	return s
 }
